@@ -282,7 +282,7 @@ def run(ctx):
         streams = streams[::thin]
         scaled = scaled[::thin]
     for n, s in enumerate(streams):
-        reqs += requests_for(s, n, nvar=(2 if quick else 6))
+        reqs += requests_for(s, n, nvar=(1 if quick else 6))
     for n, s in enumerate(scaled):
         reqs += requests_for(s, n, scaled=True)
     # the model's commit-order witnesses, replayed with that schedule imposed on the consumer goroutines
@@ -381,7 +381,7 @@ def run(ctx):
                    rule="every stream of length <= 3 over the 18-element alphabet of BulkAbs.tla ({g1, g2, missing graph, empty name, schema-suffixed name} x "
                         "{vertex, edge, neither} x {valid, invalid}, repeated ids) plus sampled streams of length 4 and 5 and scaled streams of lengths 49-51, 99-101, 250; "
                         "each replayed on server.BulkAdd (plain; behind BulkWriteFilter with 3 policies), kvgraph BulkAdd, util.StreamBatch (batch 1-3, 50) and "
-                        "one-by-one AddVertex/AddEdge (quick tier: the plain server for every stream plus two of the six other variants in rotation), "
+                        "one-by-one AddVertex/AddEdge (quick tier: the plain server for every stream plus one of the six other variants in rotation), "
                         "then counts and the complete observation compared with the abstract outcome; "
                         "evaluations = judged replays + edit requests; non-trivial = distinct streams with at least one storable element"
                    )
